@@ -262,6 +262,9 @@ CORPUS["C10"] = [
 ]
 
 CORPUS["C11"] = [
+    M("negative angles zeroed through a flipped view of the argument", (EAS, "        tDec = -tauLorentz * mean_Tau_life * np.log(u)  # seconds", "        bb = np.flip(beta)\n        bb[bb < 0] = 0.0\n        tDec = -tauLorentz * mean_Tau_life * np.log(u)  # seconds")),
+    M("argument overwritten with np.copyto", (EAS, "        tDec = -tauLorentz * mean_Tau_life * np.log(u)  # seconds", "        np.copyto(tauBeta, np.minimum(tauBeta, 1.0))\n        tDec = -tauLorentz * mean_Tau_life * np.log(u)  # seconds")),
+    B("padded copy of the angles used for nothing but its shape", (EAS, "        tDec = -tauLorentz * mean_Tau_life * np.log(u)  # seconds", "        _n = np.pad(beta, 1).shape[0] - 2\n        tDec = -tauLorentz * mean_Tau_life * np.log(u)  # seconds")),
     M("times scaled in place", (GEO, "times = times * self.sourceOBSTime  # in s", "times *= self.sourceOBSTime  # in s")),
     M("photon density normalised by the batch maximum", (EAS, "        numPEs = (\n            dphots", "        dphots = dphots / np.max(dphots)\n        numPEs = (\n            dphots")),
     M("argument incremented in place", (EAS, "        altDec -= R_earth.to(units.km).value\n\n        return altDec, lenDec", "        altDec -= R_earth.to(units.km).value\n        beta += 0.0\n\n        return altDec, lenDec")),
